@@ -250,6 +250,57 @@ def _cli_check(smt2, timeout_s):
         os.unlink(fn)
 
 
+def _finite_inst(e, rng, cache):
+    """replace every quantifier by its instances over the integer range rng (bounded refutation only)"""
+    k = e.get_id()
+    if k in cache:
+        return cache[k]
+    if z3.is_quantifier(e):
+        n = e.num_vars()
+        body = e.body()
+        import itertools
+        insts = []
+        for combo in itertools.product(rng, repeat=n):
+            vals = [z3.IntVal(c) for c in reversed(combo)]
+            insts.append(_finite_inst(z3.substitute_vars(body, *vals), rng, cache))
+        r = z3.And(*insts) if e.is_forall() else z3.Or(*insts)
+    elif z3.is_app(e) and e.num_args() > 0:
+        ch = [_finite_inst(c, rng, cache) for c in e.children()]
+        r = e.decl()(*ch)
+    else:
+        r = e
+    cache[k] = r
+    return r
+
+
+def bounded_refute(p, claim, bound=6):
+    """search a small counterexample: quantifiers expanded over [-1, bound+1]; the result is only a
+    CANDIDATE - it counts as a violation only if its native replay reproduces on the real code"""
+    s = z3.Solver()
+    s.set('timeout', 8000)
+    rng = list(range(-1, bound + 2))
+    cache = {}
+    for c in p.pc:
+        s.add(c)
+    try:
+        for ax in p.axioms:
+            s.add(_finite_inst(ax, rng, cache))
+        s.add(_finite_inst(z3.Not(claim), rng, cache))
+    except Exception:
+        return None
+    for hint in list(getattr(RUN, 'small_model_hints', ())) + [None]:
+        s.push()
+        if hint is not None:
+            s.add(hint)
+        r = s.check()
+        if r == z3.sat:
+            m = s.model()
+            s.pop()
+            return m
+        s.pop()
+    return None
+
+
 def _has_quant(e):
     seen = set()
     todo = [e]
@@ -363,6 +414,17 @@ def prove(label, claim, kind='post', clause=None, path=None):
         elif ob.verdict is None:
             ob.verdict, ob.backend = 'undecided', None
             ob.note = 'solver: ' + s.reason_unknown()
+            if RUN.concretise and (p.axioms or quant):
+                zm = bounded_refute(p, claim)
+                if zm is not None:
+                    try:
+                        ob.replay = RUN.concretise(zm, ob)
+                    except Exception as e:
+                        ob.replay = None
+                    if ob.replay and ob.replay.get('script'):
+                        ob.model = _model_dict(zm)
+                        ob.verdict, ob.backend = 'failed', 'z3-bounded-instantiation'
+                        ob.note = 'candidate counterexample from bounded quantifier instantiation; stands only if its replay reproduces'
             if os.environ.get('PYSYM_DUMP'):
                 with open(os.path.join(os.environ['PYSYM_DUMP'], 'undecided_%d.smt2' % len(RUN.obligations)), 'w') as f:
                     f.write('; %s\n(set-logic ALL)\n%s' % (ob.name, s.to_smt2()))
